@@ -67,6 +67,8 @@ class Sim:
         self.error = None
         self.trace = []
         self.deadlock = []
+        self.on_point = None     # monitor called at every scheduling point
+        self.after = None        # after(pid, op, arg) for selected calls
 
     # ---- scheduling -------------------------------------------------------
     def spawn(self, pid, fn):
@@ -147,6 +149,8 @@ class Sim:
     def point(self, pid, what):
         """a scheduling point of process pid"""
         self.trace.append((pid, what))
+        if self.on_point is not None:
+            self.on_point(pid, what)
         if len(self.trace) > 4000:
             self.error = pysym.Unwind("process simulation step bound")
         with self.cv:
@@ -320,6 +324,8 @@ class OsShim:
         if any(f.startswith(path + "/") for f in fs.files):
             raise OSError(errno.ENOTEMPTY, path)
         fs.dirs.discard(path)
+        if self.sim.after is not None:
+            self.sim.after(self.pid, "rmdir", path)
 
 
 class FcntlShim:
@@ -401,6 +407,15 @@ class OpenShim:
             fs.files[path] = []
             fs.inode[path] = fs.next_inode
             fs.next_inode += 1
+        elif "w" in mode or "a" in mode:
+            if path.rsplit("/", 1)[0] not in fs.dirs:
+                raise FileNotFoundError(errno.ENOENT, path)
+            if path not in fs.files:
+                fs.files[path] = []
+                fs.inode[path] = fs.next_inode
+                fs.next_inode += 1
+            elif "w" in mode:
+                del fs.files[path][:]
         elif path not in fs.files:
             raise FileNotFoundError(errno.ENOENT, path)
         buf = fs.files[path]
